@@ -77,6 +77,21 @@ CONST_EVENTS = [
 ]
 
 
+NESTED_EVENTS = [
+    ["mutate", [
+        ["n1", ["add", ["str_slice", x, L(0), L(1)], ["str_slice", x, L(1), L(1)]]],
+        ["n2", ["add", ["str_replace_all", x, L("'"), L("''")], ["str_replace_all", x, L("%"), L("\\%")]]],
+        ["n3", ["add", ["fill_null", x, L("%")], ["str_slice", x, L(1), L(5)]]],
+        ["n4", ["add", ["coalesce", ["str_slice", x, L(5), L(1)], L("'")], ["fill_null", x, L("-")]]],
+        ["n5", ["eq", ["str_slice", x, L(0), L(1)], ["str_slice", x, L(1), L(1)]]],
+        ["n6", ["add", ["case", [[["eq", x, L("a")], L("'")]], x], ["str_replace_all", x, L("_"), L("%")]]],
+        ["n7", ["str_len", ["add", ["str_slice", x, L(0), L(2)], L(";")]]],
+        ["n8", ["str_starts_with", ["add", ["str_slice", x, L(0), L(1)], ["str_slice", x, L(0), L(1)]], L("%")]],
+    ]],
+    ["filter", [["eq", ["add", ["str_slice", x, L(0), L(1)], ["str_slice", x, L(1), L(1)]], x]]],
+]
+
+
 def check_structure(step):
     """the generated statement keeps its structure: exactly one statement, same columns and row count"""
     vs = []
@@ -137,7 +152,7 @@ def tasks(tier):
 def run_task(task, tier):
     w = world(tier)
     if task.get("consts"):
-        events = CONST_EVENTS
+        events = CONST_EVENTS + NESTED_EVENTS
     else:
         ss = strings(tier)[task["range"][0]:task["range"][1]]
         events = [e for s in ss for e in events_for(s)]
@@ -174,6 +189,7 @@ def describe(tier):
                       "replace_all(lit, 'Z')", "replace_all('a', lit)", "when(x == lit).then(lit)", "x.map({lit: 'hit'})", "mutate(c=lit)", "fill_null(lit)",
                       "str.len(x + lit)", "filter(x == lit)", "filter(starts_with)"],
         "constants": "-1, 0, -0.5, True, False, None as constants and inside arithmetic / comparisons / is_in / case",
+        "nested": "concatenations / comparisons of two string-function results (slice, replace_all, fill_null, coalesce, case) on the metacharacter data",
         "pairs": "every (literal, data string) pair for every position",
         "backends": ["polars", "sqlite"],
         "oracle": "SQLite == polars == reference model per row; build_query text executes as exactly one statement through raw sqlite3 with the same column list and row count",
